@@ -156,12 +156,23 @@ pub fn gen_case(c: &mut Choices) -> Case {
         5 => {
             labels.push("shape=identifier-options".into());
             from_uo(&mut written_keys);
-            format!("{setup}, uo")
+            if c.chance(1, 3) {
+                // a further argument after the options must stay where it is
+                labels.push("shape=third-argument".into());
+                format!("{setup}, uo, uo2")
+            } else {
+                format!("{setup}, uo")
+            }
         }
         6 => {
             labels.push("shape=call-options".into());
             from_uo(&mut written_keys);
-            format!("{setup}, mk()")
+            if c.chance(1, 3) {
+                labels.push("shape=third-argument".into());
+                format!("{setup}, mk(), uo2")
+            } else {
+                format!("{setup}, mk()")
+            }
         }
         7 => {
             labels.push("shape=spread-args-0".into());
@@ -437,8 +448,11 @@ impl Property for C20 {
             }
             return Verdict::Pass;
         }
-        if got.len() != 2 {
+        if got.len() != want.len().max(2) {
             return fail("argument-count", json!({"expected_options": expected}));
+        }
+        if got.len() > 2 && got[2..] != want[2..] {
+            return fail("arguments-after-the-options-changed", json!(null));
         }
         let mut observed = match obj_entries(&got[1]) {
             Some(e) => e,
